@@ -202,6 +202,11 @@ def check(repo, res, tier):
     #      the last value given for each name (stale entries under a differently typed key must not win)
     bad3, n3 = sequences_of_three(setter)
     n_forms += n3
+    if tier == "thorough":
+        bad4, n4 = sequences_of_three(setter, length=4)
+        res.check(not bad4, "R-KEEP", setter, "successive-quadruples(%d sequences)" % n4,
+                  "after any four assignments in mixed formats every parameter holds the last value given for its name",
+                  "a sequence of four assignments leaves a stale value in force (%d of %d), e.g. %s" % (len(bad4), n4, "; ".join(bad4[:2])), node=setter.node)
     res.check(not bad3, "R-KEEP", setter, "successive-triples(%d sequences)" % n3,
               "after any three assignments in mixed formats every parameter holds the last value given for its name",
               "a sequence of assignments leaves a stale value in force (%d of %d sequences), e.g. %s" % (len(bad3), n3, "; ".join(bad3[:2])), node=setter.node)
@@ -276,8 +281,9 @@ def check(repo, res, tier):
     res.floor("parameter input forms executed abstractly", n_forms, 70)
 
 
-def sequences_of_three(setter):
+def sequences_of_three(setter, length=3):
     """-> (list of failing sequence descriptions, number of sequences executed)"""
+    import itertools as _it
     full = {"list": lambda v: list(v), "tuple": lambda v: tuple(v), "ndarray": lambda v: nd(list(v)),
             "pairs": lambda v: [(NAMES[i], v[i]) for i in (1, 2, 0)], "dict": lambda v: {NAMES[i]: v[i] for i in (2, 1, 0)},
             "symdict": lambda v: {Tok(NAMES[i], "sym"): v[i] for i in (0, 2, 1)}}
@@ -286,13 +292,14 @@ def sequences_of_three(setter):
     forms.update(partial)
     bad, n = [], 0
     for l1 in full:                       # the first assignment must define every parameter
-        for l2 in forms:
-            for l3 in forms:
+        for rest in _it.product(forms, repeat=length - 1):
+            if True:
                 n += 1
                 me = model(NAMES)
                 ref = {}
                 ok = True
-                for step, lab in enumerate((l1, l2, l3)):
+                l2, l3 = rest[0], rest[-1]
+                for step, lab in enumerate((l1,) + tuple(rest)):
                     v = [10.0 * (step + 1) + i + 0.5 for i in range(3)]
                     val = forms[lab](v)
                     try:
@@ -301,7 +308,7 @@ def sequences_of_three(setter):
                         return (["outside the modelled subset: %s" % e], n)
                     if kind != "return":
                         ok = False
-                        bad.append("%s, %s, %s: step %d raises" % (l1, l2, l3, step + 1))
+                        bad.append("%s: step %d raises" % (", ".join((l1,) + tuple(rest)), step + 1))
                         break
                     if lab in full:
                         ref = {NAMES[i]: v[i] for i in range(3)}
@@ -313,7 +320,7 @@ def sequences_of_three(setter):
                     got = list(me.attrs.get("_paramValue") or [])
                     want = [ref[nm] for nm in NAMES]
                     if got != want:
-                        bad.append("%s, %s, %s -> %s (expected %s)" % (l1, l2, l3, got, want))
+                        bad.append("%s -> %s (expected %s)" % (", ".join((l1,) + tuple(rest)), got, want))
     return bad, n
 
 
